@@ -302,12 +302,15 @@ func c14Init(w *World, rng *rand.Rand, accs []*Account, i int, emit func(c14Rec)
 	pick := func() string { return odd[rng.Intn(len(odd))] }
 	var args []string
 	desc := ""
-	if rng.Intn(12) == 0 {
+	if rng.Intn(6) == 0 {
 		// positional
 		n := 2 + rng.Intn(5)
 		args = []string{"platformski", []string{w.Robot.SKI, "zz", ""}[rng.Intn(3)]}
 		for len(args) < n {
 			args = append(args, pick())
+		}
+		if rng.Intn(3) == 0 {
+			args = make([]string, 1+rng.Intn(6)) // nothing but empty strings, of any count
 		}
 		desc = fmt.Sprintf("init positional %q", trunc(args))
 	} else {
